@@ -3275,11 +3275,16 @@ class FuncRandom(ValueFunc):
             return ValueInt(self.getRandomInt(0, args.getInt("a").value))
 
         if args.hasArg("a") and args.hasArg("b"):
-            return ValueInt(
-                self.getRandomInt(
-                    args.getInt("a").value, args.getInt("b").value
+            try:
+                return ValueInt(
+                    self.getRandomInt(
+                        args.getInt("a").value, args.getInt("b").value
+                    )
                 )
-            )
+            except OverflowError:
+                raise CklRuntimeError(
+                    ValueString("ERROR"), "Range is too large", pos
+                )
 
         return ValueDecimal(self.getRandomDouble())
 
